@@ -143,16 +143,31 @@ def run(ctx):
                 if c.get("def") == "core::option::Option::<T>::take":
                     return [(("some", a[1]), {"dest": ("v", "Some")}), (("none", a[1]), {"dest": ("v", "None")})]
                 return None
-        s = S(b).run(0, ("?", 0), {})
+        # the take-and-run part may sit in a private helper that is handed the upgraded token (`release_now(&token)`)
+        tb, via = b, None
+        if not any(c.def_ == "core::option::Option::<T>::take" for c in b.calls()):
+            ups_ = [c for c in b.calls() if c.name == "upgrade"]
+            prb_ = Prov(b, adapter_pred=lambda t: (t.get("callee") or {}).get("name") in ("deref", "as_ref", "borrow"))
+            for x in b.calls():
+                if ups_ and any(any(o[0] in ("call", "via") and o[1] == ups_[0].bb for o in prb_.operand(a)) for a in x.args):
+                    for hb in local_callee_bodies(F, x):
+                        if hb.crate == MQ and any(c.def_ == "core::option::Option::<T>::take" for c in hb.calls()):
+                            tb, via = hb, x
+        s = S(tb).run(0, ("?", 0), {})
         some = [a[1] for _, a, _ in s.returns if a[0] == "some"]
         other = [a[1] for _, a, _ in s.returns if a[0] != "some"]
+        if via is not None and (via.bb in b.reachable_after(via.bb) or len([x for x in b.calls() if x.def_ == via.def_]) != 1):
+            some = some + [2]       # the helper itself can run more than once
         ctx.check(some and all(x == 1 for x in some) and all(x == 0 for x in other), "R06.2", fnkey(b) + "#calls-closure-once-when-present", loc(b),
                   "force-flush destructor calls the release closure %s time(s) when present / %s otherwise" % (sorted(set(some)), sorted(set(other))))
         up = [c for c in b.calls() if c.name == "upgrade"]
-        lk = [c for c in b.calls() if c.name == "lock"]
-        tk = [c for c in b.calls() if c.name == "take"]
+        lk = [c for c in tb.calls() if c.name == "lock"]
+        tk = [c for c in tb.calls() if c.name == "take"]
         dom = b.dominators()
-        ctx.check(up and lk and tk and dominates(b, up[0].bb, lk[0].bb, dom) and dominates(b, lk[0].bb, tk[0].bb, dom), "R06.2", fnkey(b) + "#upgrade<lock<take", loc(b), "force-flush destructor does not upgrade, lock, then take")
+        tdom = tb.dominators()
+        order_ok = bool(up and lk and tk) and dominates(tb, lk[0].bb, tk[0].bb, tdom) and (
+            dominates(b, up[0].bb, lk[0].bb, dom) if via is None else dominates(b, up[0].bb, via.bb, dom))
+        ctx.check(order_ok, "R06.2", fnkey(b) + "#upgrade<lock<take", loc(b), "force-flush destructor does not upgrade, lock, then take")
     dg = [(b, c) for b in lib for c in b.calls() if c.name == "downgrade" and "Arc" in c.def_]
     builds = [(b, i) for b in lib for i in b.live_blocks() for s in b.stmts(i) if s["k"] == "assign" and s["rv"]["k"] == "agg" and (s["rv"].get("adt") or "").endswith("keep_alive::DropAll")]
     for b, i in builds:
